@@ -90,6 +90,53 @@ class State:
         return h[:10]
 
 
+def has_quantifier(t):
+    todo = [t]
+    seen = set()
+    while todo:
+        x = todo.pop()
+        if x.get_id() in seen:
+            continue
+        seen.add(x.get_id())
+        if z3.is_quantifier(x):
+            return True
+        if z3.is_app(x):
+            todo.extend(x.children())
+    return False
+
+
+_sym_cache = {}
+_GENERIC = ('cls_of', 'alloc0')
+
+
+def symbols_of(t):
+    """Names of the uninterpreted constants / functions occurring in t (heap arrays and
+    generic bookkeeping symbols excluded: they occur almost everywhere)."""
+    k = t.get_id()
+    if k in _sym_cache:
+        return _sym_cache[k]
+    out = set()
+    todo = [t]
+    seen = set()
+    while todo:
+        x = todo.pop()
+        if x.get_id() in seen:
+            continue
+        seen.add(x.get_id())
+        if z3.is_quantifier(x):
+            todo.append(x.body())
+            continue
+        if z3.is_app(x):
+            d = x.decl()
+            if d.kind() == z3.Z3_OP_UNINTERPRETED:
+                n = d.name()
+                if not n.startswith('H0_') and not n.startswith('H_') and n not in _GENERIC and not n.startswith('alloc!'):
+                    out.add(n)
+            todo.extend(x.children())
+    _sym_cache[k] = frozenset(out)
+    return _sym_cache[k]
+
+
 class Obligation:
     def __init__(self, func, kind, label, pc, claim, trail, carries=None, info=None,
                  lineno=None):
@@ -107,9 +154,35 @@ class Obligation:
         self.fp = fp
         self.id = '%s#%s:%s@%s' % (func, kind, label, fp)
 
-    def formula(self):
-        """The formula whose unsatisfiability discharges the obligation."""
-        return list(self.pc) + [z3.Not(self.claim)]
+    def formula(self, light=False):
+        """The formula whose unsatisfiability discharges the obligation.  light: without the
+        quantified assumptions (their instances at the path's index terms are kept) - fewer
+        hypotheses, so `unsat` is still a proof; tried first because it is quantifier-free."""
+        pc = list(self.pc)
+        if light:
+            pc = [t for t in pc if not has_quantifier(t)]
+        return pc + [z3.Not(self.claim)]
+
+    def formula_coi(self, rounds=3):
+        """Cone of influence: only the quantifier-free assumptions that share symbols
+        (transitively, `rounds` rounds) with the claim.  Fewer hypotheses: `unsat` is a proof."""
+        pc = [t for t in self.pc if not has_quantifier(t)]
+        syms = [symbols_of(t) for t in pc]
+        want = set(symbols_of(self.claim))
+        keep = [False] * len(pc)
+        for _ in range(rounds):
+            changed = False
+            for i, sset in enumerate(syms):
+                if not keep[i] and sset & want:
+                    keep[i] = True
+                    want |= sset
+                    changed = True
+            if not changed:
+                break
+        return [t for t, k in zip(pc, keep) if k] + [z3.Not(self.claim)]
+
+    def has_quantified_assumptions(self):
+        return any(has_quantifier(t) for t in self.pc)
 
     def readable(self):
         return {'id': self.id, 'kind': self.kind, 'claim': self.info.get('claim', self.label),
